@@ -309,6 +309,63 @@ def shard_cubes(spec, R):
                 results["spi_grouped"] = da.hdc.algo.spi(groups=[str(g) for g in grp2]).values
             except Exception as e:
                 R.violation("C08:raises", f"grouped SPI raises {type(e).__name__} for a cube containing {sorted(set(kinds))}: {str(e)[:100]}", case)
+        # ---- group-level degeneracy: uneven groups, and for some pixels one whole group is missing / zero / a single value
+        if dtype in ("int16", "float32"):
+            ng = int(rng.integers(2, 5))
+            wts = rng.dirichlet(np.full(ng, 0.7))
+            g3 = rng.choice(ng, nt, p=wts)
+            g3[rng.choice(nt, 3 * ng, replace=False)] = np.repeat(np.arange(ng), 3)  # >= 3 steps per group (a one-step group is an invalid window: C09)
+            if rng.random() < 0.5:
+                g3 = np.sort(g3)
+            cube3 = cube.copy()
+            wiped = {}
+            for a in range(ny):
+                for b in range(nx):
+                    if kinds[a * nx + b] == "ordinary" and rng.random() < 0.6:
+                        gw = int(rng.integers(0, ng))
+                        how = ["nodata", "zero", "single"][int(rng.integers(0, 3))]
+                        sel = g3 == gw
+                        if how == "nodata":
+                            cube3[a, b][sel] = nodata
+                        elif how == "zero":
+                            cube3[a, b][sel] = 0 if nodata != 0 else 1
+                        else:
+                            keep = int(np.flatnonzero(sel)[0])
+                            v = cube3[a, b][keep]
+                            cube3[a, b][sel] = nodata
+                            cube3[a, b][keep] = v
+                        wiped[(a, b)] = (gw, how)
+            da3 = xr.DataArray(cube3, dims=["y", "x", "time"], coords={"time": time}, attrs={"nodata": nodata})
+            labels3 = [f"s{int(g)}" for g in g3]
+            case3 = {"cube": cube3, "nodata": nodata, "groups": g3, "kinds": kinds, "dtype": dtype, "wiped": {f"{k[0]},{k[1]}": list(v) for k, v in wiped.items()}}
+            try:
+                out3 = da3.hdc.algo.spi(groups=labels3).values
+            except Exception as e:
+                out3 = None
+                R.violation("C08:raises", f"grouped SPI raises {type(e).__name__} when a whole group of a pixel is {sorted(set(v[1] for v in wiped.values()))}: {str(e)[:100]}", case3)
+            if out3 is not None:
+                R.count("uneven_group_cubes")
+                for a in range(ny):
+                    for b in range(nx):
+                        if kinds[a * nx + b] != "ordinary":
+                            continue
+                        for gidx in range(ng):
+                            sel = g3 == gidx
+                            xs = np.ascontiguousarray(cube3[a, b][sel])
+                            R.count("group_isolation_checks")
+                            if (a, b) in wiped and wiped[(a, b)][0] == gidx:
+                                R.count(f"wiped_group_{wiped[(a, b)][1]}")
+                            if not (xs != nodata).any():
+                                alone = np.full(xs.size, nodata, dtype=np.int16)
+                            else:
+                                try:
+                                    alone = s.gammastd_yxt(xs.reshape(1, 1, -1), nodata, 0, int(sel.sum()))[0, 0]
+                                except Exception:
+                                    continue
+                            if not np.array_equal(out3[a, b][sel], alone):
+                                R.violation("C08:isolation", f"grouped spi with uneven groups (sizes {np.bincount(g3).tolist()}): pixel ({a},{b}) group {gidx} differs from the SPI of that group taken alone"
+                                            + (f" (group {wiped[(a, b)][0]} of this pixel is all-{wiped[(a, b)][1]})" if (a, b) in wiped else ""), case3)
+                                break
         for where, out in results.items():
             if where == "spi_grouped":
                 for a in range(ny):
